@@ -38,12 +38,6 @@ def reachable (p : Program) (h : String) : List String :=
 def hasMutualRecursiveScc (p : Program) : Bool :=
   (heads p).any (fun h => (reachable p h).any (fun g => g != h && (reachable p g).contains h))
 
-/-- the relation the caller asks for: the head of the last rule of the text. -/
-def queryRel (p : Program) : String := (p.getLast?.map (·.hrel)).getD ""
-
-/-- the relation the engine answers with: the last head in first-appearance order. -/
-def answeredRel (p : Program) : String := ((heads p).getLast?).getD ""
-
 /-- a head that also has stored facts (its facts are shadowed by the derived result). -/
 def headHasFacts (p : Program) (edb : DB) : Bool := (heads p).any (fun h => !(edb.get h).isEmpty)
 
@@ -73,16 +67,41 @@ def aggNotLast (r : Rule) : Bool :=
   | [] => false
   | _ :: front => front.any (fun | .agg .. => true | _ => false)
 
-def classify (cfg : Cfg) (p : Program) (edb : DB) : String :=
+/-- the optimizer moves the rule's comparison filters onto the right input of a join and reads a
+    variable from the wrong stored column (`Engine.pushPlan`). -/
+def pushdownShift (r0 : Rule) : Bool :=
+  let r := quirkWild r0
+  match buildCmps r.posVars r.cmps with
+  | some (cols, fs) =>
+    if !cols.isEmpty then false else
+    match pushPlan r fs with
+    | some (k, m) =>
+      (match (posWithIdx r.body 0)[k]? with
+       | some (bi, a) => m.any (fun xc => firstPos xc.1 (scanNames bi 0 a.args) 0 != some xc.2)
+       | none => false)
+    | none => false
+  | none => false
+
+def nonRecRules (p : Program) : List Rule := p.filter (fun r => !selfRec p r.hrel)
+
+def allOff (cfg : Cfg) : Bool := !(cfg.jp || cfg.sip || cfg.ss || cfg.bs || cfg.ms)
+
+/-- some switch is on and the model engine *without* switches answers the least model on this
+    input: the failure is due to the switch-controlled passes (the subject of C02/C05). -/
+def switchDependent (cfg : Cfg) (p : Program) (edb : DB) (want : String) : Bool :=
+  !allOff cfg && (Engine.run {} (fun _ => 0) (fun _ ts => ts) 64 p edb).toWire == want
+
+def classify (cfg : Cfg) (p : Program) (edb : DB) (want : String) : String :=
   if hasMutualRecursiveScc p then "has_mutual_recursive_scc"
   else if queryRel p != answeredRel p then "last_rule_head_not_last_head"
-  else if headHasFacts p edb then "head_has_stored_facts"
   else if p.any sameRelWildcard then "same_relation_wildcard_position"
   else if p.any droppedEquality then "equality_on_computed_variable"
   else if p.any aggNotLast then "aggregate_not_last_in_head"
-  else if cfg.jp && (heads p).any (fun h => (clausesOf p h).length ≥ 2 && (clausesOf p h).all (fun r => r.posAtoms.length ≥ 2)) then
-    "union_of_joins_under_join_planning"
+  else if (nonRecRules p).any pushdownShift then "filter_pushdown_key_shift"
+  else if cfg.jp && (heads p).any (fun h => (clausesOf p h).length ≥ 2 && (clausesOf p h).any (fun r => r.posAtoms.length ≥ 2)) then
+    "union_with_join_under_join_planning"
   else if cfg.sip && (clausesOf p (answeredRel p)).length ≥ 2 then "last_head_multi_clause_with_sip"
+  else if switchDependent cfg p edb want then "switch_dependent_answer"
   else "unclassified"
 
 /-- Spec verdict on the implementation's output. -/
@@ -92,9 +111,9 @@ def specVerdict (cfg : Cfg) (p : Program) (edb : DB) (impl : String) : String ×
   | some m =>
     let want := relToWire (m.get (queryRel p))
     let nt := !(m.get (queryRel p)).isEmpty && p.any (fun r => r.body.length ≥ 2)
-    if impl.startsWith "err:" then ("na", false)
+    if impl.startsWith "err:" || headHasFacts p edb then ("na", false)   -- views cannot hold stored facts through any public path
     else if impl == want then (specOk, nt)
-    else (specFail (classify cfg p edb) s!"want={want}", nt)
+    else (specFail (classify cfg p edb want) s!"want={want}", nt)
 
 def sipHashDummy (_ : Tuple) : Nat := 0
 
@@ -103,8 +122,8 @@ def runH : Handler := fun args impl =>
   match parseReq args with
   | some (cfg, edb, p) =>
     let out := Engine.run cfg sipHashDummy (fun _ ts => ts) fuelDefault p edb
-    let (sv, nt) := specVerdict cfg p edb impl
-    { model := out.toWire, spec := sv, nt := nt }
+    let (sv, nt) := specVerdict cfg p edb ((impl.splitOn "#").headD "")
+    { model := out.toWireAll, spec := sv, nt := nt }
   | none => badReq
 
 /-- `c01.spec`: any switches — search only (the IR passes are not in this model, so the model
